@@ -5,11 +5,14 @@ only, so it builds as a native executable.
 -/
 import QuantityModel.Model.Rounding
 import QuantityModel.Model.Term
+import QuantityModel.Model.Registry
+import QuantityModel.Model.Quantity
 namespace QM.Driver
 open QM
 
 structure DState where
   env : Env := { atoms := [] }
+  q : QState := { reg := RegState.init }
 
 def DState.init : DState := {}
 
@@ -130,6 +133,281 @@ def stepTerm (st : DState) (args : List String) : Option (DState × String) :=
       (st, s!"ok {ratStr n} {showItems r}")
   | _ => none
 
+/-! ### registry and quantities -/
+
+def clsId? (r : RegState) (name : String) : Option Nat :=
+  (List.range r.classes.length).find? fun c => (r.cls c).name == name
+
+def unitId? (r : RegState) (sym : String) : Option Nat := r.symMap.lookup sym
+
+/-- items over classes (`c:Name^e`) or units (`u:sym^e`, `n:q^e`) -/
+def parseRegItem? (r : RegState) (s : String) : Option Item :=
+  match s.splitOn "^" with
+  | [el, e] =>
+    match e.toInt? with
+    | none => none
+    | some e =>
+      if el.startsWith "n:" then (parseRat? (el.drop 2).toString).map fun q => (Elem.num q, e)
+      else if el.startsWith "c:" then (clsId? r (el.drop 2).toString).map fun c => (Elem.atom c, e)
+      else if el.startsWith "u:" then (unitId? r (el.drop 2).toString).map fun u => (Elem.atom u, e)
+      else none
+  | _ => none
+
+def parseRegItems? (r : RegState) (s : String) : Option Items :=
+  if s == "-" then some [] else (s.splitOn ";").mapM (parseRegItem? r)
+
+def optStr (s : String) : Option String :=
+  if s == "-" then none else if s == "<empty>" then some "" else some s
+
+def showDecl (r : RegState) (res : Except DeclErr Nat) (isCls : Bool) : String :=
+  match res with
+  | .ok i => "ok " ++ (if isCls then (r.cls i).name else (r.unit i).symbol)
+  | .error e => "err " ++ e.toErr.name
+
+def showOptRat : Option Rat → String
+  | some q => ratStr q
+  | none => "none"
+
+def usym (r : RegState) (u : Nat) : String := (r.unit u).symbol
+
+/-- full directory dump (the `observe` of C15/C16) -/
+def observe (r : RegState) : String :=
+  let syms := r.symMap.map fun (sym, u) =>
+    s!"{sym}={(r.cls (r.unit u).cls).name}:{showOptRat (r.unit u).equiv}"
+  let classes := (List.range r.classes.length).map fun c =>
+    let ci := r.cls c
+    let us := ",".intercalate (ci.units.map (usym r))
+    s!"{ci.name}[{us}]ref={(ci.refUnit.map (usym r)).getD "none"} q={showOptRat ci.quantum}"
+  " ".intercalate (syms.toArray.qsort (· < ·)).toList ++ " | " ++ " ".intercalate classes
+
+def parseAmount? (s : String) : Option Rat :=
+  if s.startsWith "F:" then parseRat? (s.drop 2).toString
+  else if s.startsWith "D:" then
+    match (s.drop 2).toString.splitOn ":" with
+    | [v, p] => match v.toInt?, p.toNat? with
+      | some v, some p => some ((v : Rat) / ((10 : Rat) ^ p))
+      | _, _ => none
+    | _ => none
+  else parseRat? s
+
+/-- decimal internal pair of an amount token (`none`: held as Fraction) -/
+def strip10 : Nat → Nat → Nat → Nat → Option Nat
+  | 0, _, _, _ => none
+  | fuel + 1, d, a, b =>
+    if d == 1 then some (max a b)
+    else if d % 2 == 0 then strip10 fuel (d / 2) (a + 1) b
+    else if d % 5 == 0 then strip10 fuel (d / 5) a (b + 1)
+    else none
+
+def decPair? (s : String) : Option (Int × Nat) :=
+  if s.startsWith "F:" then none
+  else if s.startsWith "D:" then
+    match (s.drop 2).toString.splitOn ":" with
+    | [v, p] => match v.toInt?, p.toNat? with
+      | some v, some p => some (v, p)
+      | _, _ => none
+    | _ => none
+  else match parseRat? s with
+    | none => none
+    | some q =>
+      match strip10 (q.den.log2 + 2) q.den 0 0 with
+      | some p => some ((q * (10 : Rat) ^ p).num, p)
+      | none => none
+
+/-- `amount@symbol` -/
+def parseQty? (r : RegState) (dflt : Rounding) (s : String) : Option (Except Err Qty) :=
+  match s.splitOn "@" with
+  | [a, u] =>
+    match parseAmount? a, unitId? r u with
+    | some a, some u => some (r.mkQty dflt none a u)
+    | _, _ => none
+  | _ => none
+
+def showQty (r : RegState) (q : Qty) : String :=
+  s!"{ratStr q.amount}@{usym r q.unit}:{(r.cls (r.unitCls q.unit)).name}"
+
+def showVal (r : RegState) : Val → String
+  | .qty q => "qty " ++ showQty r q
+  | .num x => "num " ++ ratStr x
+  | .pair f u => s!"pair {ratStr f} {(u.map (usym r)).getD "none"}"
+
+def showVRes (r : RegState) (x : Except Err Val) : String :=
+  match x with
+  | .ok v => "ok " ++ showVal r v
+  | .error e => "err " ++ e.name
+
+def showQRes (r : RegState) (x : Except Err Qty) : String := showVRes r (x.map Val.qty)
+
+def showBRes (x : Except Err Bool) : String :=
+  match x with
+  | .ok b => s!"ok {b}"
+  | .error e => "err " ++ e.name
+
+def stepReg (st : DState) (args : List String) : Option (DState × String) :=
+  let q := st.q
+  let r := q.reg
+  let setReg := fun (r' : RegState) => { st with q := { q with reg := r' } }
+  match args with
+  | ["decl_class", name, cdef, rsym, rname, quantum] =>
+    let cd : Option (Option Items) :=
+      if cdef == "-" then some none else (parseRegItems? r cdef).map fun its =>
+        some (mkTerm r.clsEnv its)
+    match cd, parseScale? quantum with
+    | some cd, some qu =>
+      let (r', res) := r.declClass
+        { name, defineAs := cd, refUnitSymbol := optStr rsym, refUnitName := rname == "1",
+          quantum := qu }
+      some (setReg r', showDecl r' res true)
+    | _, _ => some (st, bad)
+  | ["new_unit", cls, sym, "none"] =>
+    (clsId? r cls).map fun c =>
+      let (r', res) := r.newUnit c (optStr sym) .none
+      (setReg r', showDecl r' res false)
+  | ["new_unit", cls, sym, "other"] =>
+    (clsId? r cls).map fun c =>
+      let (r', res) := r.newUnit c (optStr sym) .other
+      (setReg r', showDecl r' res false)
+  | ["new_unit", cls, sym, "qty", a, u, dflt] =>
+    match clsId? r cls, parseAmount? a, unitId? r u, Rounding.ofName? dflt with
+    | some c, some a, some u, some dflt =>
+      match r.mkQty dflt none a u with
+      | .error e => some (st, "err " ++ e.name)
+      | .ok qq =>
+        let (r', res) := r.newUnit c (optStr sym) (.qty qq.amount qq.unit)
+        some (setReg r', showDecl r' res false)
+    | _, _, _, _ => some (st, bad)
+  | ["new_unit", cls, sym, "term", items] =>
+    match clsId? r cls, parseRegItems? r items with
+    | some c, some its =>
+      let (r', res) := r.newUnit c (optStr sym) (.term (mkTerm r.unitEnv its))
+      some (setReg r', showDecl r' res false)
+    | _, _ => some (st, bad)
+  | ["derive_unit", cls, us, sym] =>
+    match clsId? r cls, (if us == "-" then some [] else (us.splitOn ",").mapM (unitId? r)) with
+    | some c, some us =>
+      let (r', res) := r.deriveUnit c us (optStr sym)
+      some (setReg r', showDecl r' res false)
+    | _, _ => some (st, bad)
+  | ["observe"] => some (st, "ok " ++ observe r)
+  | ["unit_info", sym] =>
+    match unitId? r sym with
+    | none => some (st, "err ValueError")
+    | some u =>
+      let ui := r.unit u
+      some (st, s!"ok cls={(r.cls ui.cls).name} equiv={showOptRat ui.equiv} base={ui.defn.isNone} ref={(r.cls ui.cls).refUnit == some u} quantum={showOptRat (r.unitQuantum u)}")
+  | ["uop", op, u, v] =>
+    match unitId? r u, unitId? r v with
+    | some u, some v =>
+      let (q', res) := if op == "mul" then q.mulUnits u v else q.divUnits u v
+      some ({ st with q := q' }, showVRes q'.reg (res.map fun (f, w) => Val.pair f w))
+    | _, _ => some (st, bad)
+  | ["upow", u, n, dflt] =>
+    match unitId? r u, n.toInt?, Rounding.ofName? dflt with
+    | some u, some n, some d => some (st, showVRes r (q.powUnit d u n))
+    | _, _, _ => some (st, bad)
+  | ["ueq", u, v] =>
+    match unitId? r u, unitId? r v with
+    | some u, some v => some (st, match r.unitEq u v with
+        | some b => s!"ok {b}" | none => "err AssertionError")
+    | _, _ => some (st, bad)
+  | ["q_mk", cls, a, u, dflt] =>
+    match (if cls == "-" then some none else (clsId? r cls).map some), parseAmount? a,
+      unitId? r u, Rounding.ofName? dflt with
+    | some c, some a, some u, some d => some (st, showQRes r (r.mkQty d c a u))
+    | _, _, _, _ => some (st, bad)
+  | ["q_conv", a, u, dflt] =>
+    match Rounding.ofName? dflt with
+    | none => some (st, bad)
+    | some d =>
+      match parseQty? r d a, unitId? r u with
+      | some (.ok a), some u => some (st, showQRes r (q.convert d a u))
+      | some (.error e), some _ => some (st, "err " ++ e.name)
+      | _, _ => some (st, bad)
+  | ["q_equiv", a, u, dflt] =>
+    match Rounding.ofName? dflt with
+    | none => some (st, bad)
+    | some d =>
+      match parseQty? r d a, unitId? r u with
+      | some (.ok a), some u => some (st, match q.equivAmount a u with
+          | .ok x => "ok " ++ showOptRat x | .error e => "err " ++ e.name)
+      | some (.error e), some _ => some (st, "err " ++ e.name)
+      | _, _ => some (st, bad)
+  | ["q_bin", op, a, b, dflt] =>
+    match Rounding.ofName? dflt with
+    | none => some (st, bad)
+    | some d =>
+      match parseQty? r d a, parseQty? r d b with
+      | some (.ok a), some (.ok b) =>
+        let pure1 := fun (x : String) => some (st, x)
+        match op with
+        | "eq" => pure1 (showBRes (q.qtyEq a b))
+        | "ne" => pure1 (showBRes ((q.qtyEq a b).map (!·)))
+        | "lt" => pure1 (showBRes (q.qtyCmp .lt a b))
+        | "le" => pure1 (showBRes (q.qtyCmp .le a b))
+        | "gt" => pure1 (showBRes (q.qtyCmp .gt a b))
+        | "ge" => pure1 (showBRes (q.qtyCmp .ge a b))
+        | "add" => pure1 (showQRes r (q.qtyAddSub d 1 a b))
+        | "sub" => pure1 (showQRes r (q.qtyAddSub d (-1) a b))
+        | "mul" => let (q', v) := q.qtyMul d a b; some ({ st with q := q' }, showVRes q'.reg v)
+        | "div" => let (q', v) := q.qtyDiv d a b; some ({ st with q := q' }, showVRes q'.reg v)
+        | _ => some (st, bad)
+      | some (.error e), _ => some (st, "err " ++ e.name)
+      | _, some (.error e) => some (st, "err " ++ e.name)
+      | _, _ => some (st, bad)
+  | ["q_unit", op, a, u, dflt] =>
+    match Rounding.ofName? dflt with
+    | none => some (st, bad)
+    | some d =>
+      match parseQty? r d a, unitId? r u with
+      | some (.ok a), some u =>
+        let (q', v) := match op with
+          | "mul" => q.qtyMulUnit d a u false
+          | "rmul" => q.qtyMulUnit d a u true
+          | "div" => q.qtyDivUnit d a u
+          | _ => q.unitDivQty d u a          -- "rdiv": unit / qty
+        some ({ st with q := q' }, showVRes q'.reg v)
+      | some (.error e), some _ => some (st, "err " ++ e.name)
+      | _, _ => some (st, bad)
+  | ["q_num", op, a, k, dflt] =>
+    match Rounding.ofName? dflt with
+    | none => some (st, bad)
+    | some d =>
+      match parseQty? r d a, parseRat? k with
+      | some (.ok a), some k =>
+        let v := match op with
+          | "mul" => q.qtyScale d a k
+          | "div" => q.qtyDivNum d a k
+          | "rdiv" => q.numDivQty d k a
+          | "neg" => (q.qtyNeg d a).map Val.qty
+          | "abs" => (q.qtyAbs d a).map Val.qty
+          | _ => q.qtyPow d a k.num       -- "pow"
+        some (st, showVRes r v)
+      | some (.error e), some _ => some (st, "err " ++ e.name)
+      | _, _ => some (st, bad)
+  | ["q_quantize", a, quant, mode, dflt] =>
+    match Rounding.ofName? dflt, parseMode? mode with
+    | some d, some m =>
+      let atok := (a.splitOn "@").headD ""
+      match parseQty? r d a, parseQty? r d quant with
+      | some (.ok qa), some (.ok qq) =>
+        -- the representation of a quantised operand is not modelled: use the value path
+        let rep := if (r.unitQuantum qa.unit).isSome then none else decPair? atok
+        some (st, showQRes r (q.qtyQuantize d qa rep qq m))
+      | some (.error e), _ => some (st, "err " ++ e.name)
+      | _, some (.error e) => some (st, "err " ++ e.name)
+      | _, _ => some (st, bad)
+    | _, _ => some (st, bad)
+  | ["q_round", a, n, dflt] =>
+    match Rounding.ofName? dflt, n.toInt? with
+    | some d, some n =>
+      let atok := (a.splitOn "@").headD ""
+      match parseQty? r d a with
+      | some (.ok qa) => some (st, showQRes r (q.qtyRound d qa (decPair? atok).isSome n))
+      | some (.error e) => some (st, "err " ++ e.name)
+      | none => some (st, bad)
+    | _, _ => some (st, bad)
+  | _ => none
+
 def step (s : DState) (line : String) : DState × String :=
   let args := line.splitOn "\t"
   match args with
@@ -140,6 +418,9 @@ def step (s : DState) (line : String) : DState × String :=
     | some out => (s, out)
     | none =>
     match stepTerm s args with
+    | some r => r
+    | none =>
+    match stepReg s args with
     | some r => r
     | none => (s, bad)
 
